@@ -121,7 +121,8 @@ class SimultaneousScheduler(Scheduler):
 
 
         # If any delayed events observed, store them in the model's events list for later use
-        model.events += self.delayed_events
+        # (events were popped newest first, so re-queue the delayed ones in their original order)
+        model.events += reversed(self.delayed_events)
 
         self.delayed_events = []
 
